@@ -71,4 +71,8 @@ Example c12_example :
   (* a priority above 255 is truncated on decode and the result is stable *)
   (exists m, eval p2w_msg (VOneof 25 (VStruct [VInt 1; VOneof 0 (VStruct [VBytes []; VBytes []; VInt 300; VInt 5; VInt 0]); VNil])) = Ok m /\
              model_roundtrip m = Ok m).
-Proof. vm_compute. repeat split; try reflexivity. eexists. split; reflexivity. Qed.
+Proof.
+  split; [vm_compute; reflexivity|]. split; [vm_compute; reflexivity|]. split; [vm_compute; reflexivity|].
+  split; [vm_compute; reflexivity|]. split; [vm_compute; reflexivity|].
+  eexists. split; [vm_compute; reflexivity | vm_compute; reflexivity].
+Qed.
